@@ -63,6 +63,10 @@ func main() {
 		replay(c, rep)
 		return
 	}
+	if mode == "ibcprobe" {
+		ibcProbe(c)
+		return
+	}
 
 	n := 45
 	if lib.Tier() == "thorough" {
@@ -134,6 +138,8 @@ func bulkOps() []Op {
 
 func scripted() []script {
 	sp := Spec{Chains: []string{"eth", "bsc", "tron"}, ModChains: []string{"eth", "bsc"}, ExtChains: []string{"eth"}}
+	spi := sp
+	spi.ModIBC = true
 	return []script{
 		{"C04 C05", "bulk: 104 pending transfers against the batch size of 100", sp, bulkOps()},
 		{"C08", "conversions to blocked receivers (erc20 module, chain module) and to the pair contract", sp, []Op{
@@ -168,6 +174,7 @@ func scripted() []script {
 			{K: "ConvertDenom", T: 1, A: 100, B: 100, Src: 1, Tgt: 2, X: 100},
 			{K: "ConvertDenom", T: 1, A: 100, B: 101, Src: 1, Tgt: 0, X: 50},
 		}},
+		{"C04 C08", "zero amounts through every entry point", spi, zeroOps()},
 		{"C04", "withdrawable-refuted (older-rule refund parks the bridge denom)", sp, []Op{
 			{K: "SendToFx", C: 1, T: 1, A: 100, X: 1000},
 			{K: "BridgeCallMsg", C: 1, A: 100, B: 100, Toks: [][2]int64{{1, 400}}},
@@ -189,6 +196,47 @@ func scripted() []script {
 		{"C04", "inbound bridge call fails: the deposit is handed to the refund address (regression of fixed C04-3)", sp, []Op{
 			{K: "BridgeCallIn", C: 1, A: cBad, B: 100, To: cBad, Toks: [][2]int64{{0, 500}}, Flag: false},
 		}},
+	}
+}
+
+// zeroOps: amounts / fees of 0 through every entry point (most are refused by ValidateBasic or by the keepers; some are
+// accepted as no-ops; the model must agree on each)
+func zeroOps() []Op {
+	return []Op{
+		{K: "SendToFx", C: 1, T: 1, A: 100, X: 3000},
+		{K: "SendToFx", C: 1, T: 1, A: 100, X: 0},
+		{K: "SendToFx", C: 1, T: 1, A: 100, X: 0, Tgt: 1},
+		{K: "SendToFx", C: 1, T: 0, A: 100, X: 0},
+		{K: "SendToExternal", C: 1, T: 1, A: 100, X: 0, Y: 1},
+		{K: "SendToExternal", C: 1, T: 1, A: 100, X: 10, Y: 0},
+		{K: "SendToExternal", C: 1, T: 1, A: 100, X: 10, Y: 1},
+		{K: "IncreaseFee", C: 1, T: 1, A: 100, ID: 1, X: 0},
+		{K: "IncreaseFee", C: 1, T: 0, A: 100, ID: 1, X: 0},
+		{K: "BridgeCallMsg", C: 1, A: 100, B: 100, Toks: [][2]int64{{1, 0}}},
+		{K: "BridgeCallMsg", C: 1, A: 100, B: 100, Toks: [][2]int64{{0, 0}, {1, 5}}},
+		{K: "BridgeCallIn", C: 1, A: 101, B: 101, To: 101, Toks: [][2]int64{{1, 0}}, Flag: true},
+		{K: "BridgeCallIn", C: 1, A: cBad, B: 101, To: cBad, Toks: [][2]int64{{1, 0}}, Flag: false},
+		{K: "ConvertCoin", T: 1, A: 100, B: 100, X: 0},
+		{K: "ConvertCoin", T: 1, A: 100, B: 100, X: 500},
+		{K: "ConvertERC20", T: 1, A: 100, B: 100, X: 0},
+		{K: "ConvertDenom", T: 2, A: 100, B: 100, Src: 0, Tgt: 1, X: 0},
+		{K: "PreCrossChain", C: 1, T: 1, A: 100, X: 0, Y: 1},
+		{K: "PreCrossChain", C: 1, T: 1, A: 100, X: 7, Y: 0},
+		{K: "PreCrossChain", C: 1, T: 1, A: 100, X: 0, Y: 0},
+		{K: "PreCrossChain", C: 1, T: 0, A: 100, X: 0, Y: 0, Flag: true},
+		{K: "PreBridgeCall", C: 1, A: 100, B: 100, Toks: [][2]int64{{1, 0}}},
+		{K: "PreBridgeCall", C: 1, A: 100, B: 100, Toks: nil},
+		{K: "PreIncreaseFee", C: 1, T: 1, A: 100, ID: 1, X: 0},
+		{K: "BankSend", T: 1, Src: 0, A: 100, B: 101, X: 0},
+		{K: "Erc20Transfer", T: 1, A: 100, B: 101, X: 0},
+		{K: "WfxDeposit", A: 100, X: 0},
+		{K: "WfxWithdraw", A: 100, X: 0},
+		{K: "IbcMint", T: 1, A: 100, X: 0},
+		{K: "IbcToBase", T: 1, A: 100, X: 0},
+		{K: "BaseToIbc", T: 1, A: 100, X: 0},
+		{K: "RequestBatch", C: 1, T: 1},
+		{K: "BridgeCallResult", C: 1, ID: 1, Flag: false},
+		{K: "BridgeCallResult", C: 1, ID: 2, Flag: true},
 	}
 }
 
